@@ -574,7 +574,7 @@ pub fn run(args: &[String]) -> ! {
                    table implies and jointly affordable; building order keeps nonce order per account and \
                    group; no used nonce after maintenance; parked limits. Non-trivial: >= 1 promotion, >= 1 \
                    demotion and >= 1 expiry or invalid-removal",
-            cases_quick: 400,
+            cases_quick: 800,
             cases_thorough: 12_000,
             shards: 12,
             min_nontrivial: 0.02,
